@@ -95,16 +95,20 @@ class StoreRun:
             s2.close()
         return blocks
 
-    def rebuild(self, blocks):
-        """scripts/utils.read_chain_from_disk over the given read-back (same logic: add without validation, skip on error)."""
-        CoinState = self.w.T["CoinState"]
-        cs = CoinState.empty()
-        for b in blocks:
-            try:
-                cs = cs.add_block_no_validation(b)
-            except Exception:
-                pass
-        return cs
+    def rebuild(self, blocks=None):
+        """The real scripts/utils.read_chain_from_disk, reading through a fresh connection as a restarted node does."""
+        import skepticoin.networking.local_peer      # noqa: F401  (import order: avoids the circular import of networking.manager)
+        import skepticoin.scripts.utils as su
+        with contextlib.redirect_stdout(io.StringIO()):
+            s2 = self.bs.BlockStore(self.path)
+        prev = self.bs.DefaultBlockStore.instance
+        self.bs.DefaultBlockStore.instance = s2
+        try:
+            with contextlib.redirect_stdout(io.StringIO()):
+                return su.read_chain_from_disk()
+        finally:
+            self.bs.DefaultBlockStore.instance = prev
+            s2.close()
 
     def flush(self, honest=True):
         raised = False
